@@ -208,7 +208,7 @@ Proof.
       { intros C. apply in_map_iff in C. destruct C as (x & Ex & Hx).
         apply (Hdis (sig_id s)); [apply (I4 x Hx); rewrite <- Ex; apply sig_id_in_ids | apply Hincl; apply sig_id_in_ids]. }
       split; [constructor|].
-      + apply layout_verify_insert_ok; auto. Show.
+      + apply layout_verify_insert_ok; auto.
       + intros x Hx. apply layout_insert_In in Hx. destruct Hx as [->|Hx]; auto. now rewrite sig_okb_set_pos.
       + apply name_inj_insert; auto.
       + intros x Hx. rewrite flat_map_app. apply layout_insert_In in Hx. destruct Hx as [->|Hx].
@@ -223,10 +223,14 @@ Proof.
         * rewrite sig_ids_set_pos. apply disjoint_sym. eapply disjoint_incl; [exact Hdis | apply I4; auto | auto].
         * rewrite sig_ids_set_pos. eapply disjoint_incl; [exact Hdis | apply I4; auto | auto].
         * apply Hd; auto.
-    - split; [constructor|]; try (intros x []); try (intros x y []).
+    - split; [constructor|].
       + cbn. apply Z.leb_le; lia.
-      + intros a b [].
-      + constructor. }
+      + intros x Hx; destruct Hx.
+      + intros a b Ha; destruct Ha.
+      + intros x Hx; destruct Hx.
+      + constructor.
+      + intros x Hx; destruct Hx.
+      + intros x y Hx; destruct Hx. }
   destruct G as [I Hd]. split; auto.
   apply (ForallOrdPairs_nodup_key sig_id); auto. apply (si_nodup _ _ _ I).
 Qed.
@@ -250,8 +254,9 @@ Proof.
     { eapply (foldM_inv _ (recs_ok ev sender)); [| |exact Hrecs].
       - intros; eapply load_receiver_ok; eauto.
       - repeat split; reflexivity. }
-    rewrite R1, R2, R3. cbn. destruct (pm_has_static pm); cbn; rewrite Z.eqb_refl; reflexivity.
-  - destruct (load_msg_signals_inv _ _ _ _ ltac:(lia) Hnd Hsigs) as [I Hpairs].
+    rewrite R1, R2, R3. destruct (pm_has_static pm); cbn; try rewrite Z.eqb_refl; reflexivity.
+  - assert (Hb : 0 <= pm_size pm * 8) by lia.
+    destruct (load_msg_signals_inv _ _ _ _ Hb Hnd Hsigs) as [I Hpairs].
     destruct I as [I1 I2 I3 I4 I5 I6].
     unfold msg_sigs_okb; cbn. rewrite I1. cbn.
     repeat (apply andb_true_iff; split).
